@@ -36,6 +36,19 @@ pub fn scratch_root_description() -> String {
 
 pub fn scratch_init() {
     let r = root();
+    // housekeeping: roots left behind by runs of this tool that ended abnormally
+    if let Some(base) = r.parent() {
+        if let Ok(rd) = std::fs::read_dir(base) {
+            for e in rd.flatten() {
+                let name = e.file_name().to_string_lossy().to_string();
+                if let Some(pid) = name.strip_prefix("vh-db-").and_then(|p| p.parse::<u32>().ok()) {
+                    if !std::path::Path::new(&format!("/proc/{pid}")).exists() {
+                        let _ = std::fs::remove_dir_all(e.path());
+                    }
+                }
+            }
+        }
+    }
     let _ = std::fs::remove_dir_all(r);
     if std::fs::create_dir_all(r).is_err() {
         mcx::machinery_failure("cannot create the scratch directory");
